@@ -181,6 +181,8 @@ class DatagramEndpointProtocol(asyncio.DatagramProtocol):
         assert not self.__connection_lost, "connection_lost() was called"  # nosec assert_used
         assert self.__transport is None, "Transport already set"  # nosec assert_used
         self.__transport = transport
+        # Disable in-memory datagram buffering (as the stream transports do): a send returns once the datagram is handed to the kernel.
+        transport.set_write_buffer_limits(0)
         self.__write_flow = WriteFlowControl(self.__transport, self.__loop)
         _monkeypatch_transport(transport, self.__loop)
 
